@@ -300,6 +300,11 @@ func init() {
 				i.fsOp("rename", src, false)
 				return i.pathError("rename", dst, "notexist")
 			}
+			if dn := fs.nodes[dst]; dn != nil && dn.dir && (!n.dir || len(fs.children(dst)) > 0) {
+				// a file cannot replace a directory; a directory only an empty one
+				i.fsOp("rename", src, false)
+				return i.pathError("rename", dst, "exist")
+			}
 			i.fsOp("rename", src, true)
 			i.fsOp("rename-to", dst, false)
 			if n.dir {
